@@ -540,6 +540,7 @@ type c16runner struct {
 	cases    []string
 	distinct map[string]bool
 	goSeen   map[string]bool
+	inputs   map[string][]string // every failing input of the soundness oracle, per key
 }
 
 func (r *c16runner) goCase(t reflect.Type, n string) {
@@ -584,7 +585,7 @@ func (r *c16runner) access(e *c16env, a c16access, tt conf.TypesTable) c16result
 	// ---- what Go itself says along the path ----
 	static := true     // every name on the path is resolved statically on a populated member
 	goOK := true       // Go resolves every name to an accessible (exported) member
-	unexported := false
+	unexported, unexportedTop := false, false
 	memberMulti, memberAmb, funcMap := false, false, false
 	var cur reflect.Type
 	var last c16step
@@ -619,6 +620,9 @@ func (r *c16runner) access(e *c16env, a c16access, tt conf.TypesTable) c16result
 				features["promoted"] = true
 			}
 			if !s.exported {
+				if i == 0 {
+					unexportedTop = true
+				}
 				unexported = true
 				goOK = false
 				features["unexported"] = true
@@ -704,6 +708,8 @@ func (r *c16runner) access(e *c16env, a c16access, tt conf.TypesTable) c16result
 				key = "C16-funcmap"
 			case methodIdent:
 				key = "C16-method-ident"
+			case unexportedTop:
+				key = "C16-unexported-ident" // repaired by fix b9d2c0f: must not come back
 			case unexported:
 				key = "C16-unexported"
 			case memberAmb:
@@ -711,6 +717,7 @@ func (r *c16runner) access(e *c16env, a c16access, tt conf.TypesTable) c16result
 			case memberMulti:
 				key = "C16-member-dfs"
 			}
+			r.inputs[key] = append(r.inputs[key], e.label+" | "+a.src)
 			rep.fail(Failure{Key: key, What: "the checker accepts the name, the VM does not resolve it to a value of the assumed type",
 				Input: input, Want: "a value of type " + c16TypeName(res.ctype) + " on the fully populated environment", Got: got, Replay: string(replayArg)})
 		}
@@ -959,7 +966,7 @@ func (r *c16runner) members(e *c16env, n0 string, ns []string, bt reflect.Type, 
 func runC16() {
 	rep := newReport("C16")
 	rng := rand.New(rand.NewSource(*seed))
-	r := &c16runner{rep: rep, distinct: map[string]bool{}, goSeen: map[string]bool{}}
+	r := &c16runner{rep: rep, distinct: map[string]bool{}, goSeen: map[string]bool{}, inputs: map[string][]string{}}
 
 	var envs []*c16env
 	for _, t := range c16StructPool {
@@ -1001,7 +1008,7 @@ func runC16() {
 
 	// quick tier: all CTab/CGo/CDoc cases, a seeded sample of the accesses, in the Coq model
 	cases := r.cases
-	maxAcc, absentPct := 5000, 15
+	maxAcc, absentPct := 4000, 15
 	if *tier == "thorough" {
 		maxAcc, absentPct = 24000, 30
 	}
@@ -1026,6 +1033,7 @@ func runC16() {
 		*shards = 8
 	}
 	rep.Extra["environments"] = len(envs)
+	rep.Extra["unsound_inputs_by_key"] = r.inputs
 
 	rep.Distinct = len(r.distinct)
 	rep.Exhaustive = false
